@@ -59,6 +59,7 @@ Ltac len_contra' Hc :=
 
 (* the code of a binary operator has at least 4 instructions *)
 Ltac binop_contra Hc :=
+  match type of Hc with context [if Nat.ltb ?c ?s then _ else _] => destruct (Nat.ltb c s); [|discriminate] end;
   match type of Hc with context [comp ?b ?ce ?c ?p ?n ?s] =>
     destruct (comp b ce c p n s) as [[[? ?] ?]|]; [|discriminate] end; cbv iota beta in Hc;
   match type of Hc with context [comp ?a ?ce ?c ?p ?n ?s] =>
@@ -102,6 +103,54 @@ Proof.
     simpl. rewrite (acl_sound _ _ Ha). reflexivity.
   - (* foreach *) destruct e; simpl in *; dcomp; len_contra' Hc.
   - (* bind *) destruct l; len_contra' Hc.
+  - (* binop *) binop_contra Hc.
+Qed.
+
+(* queries compiled to a single instruction that allocates no variable (the arguments compileCallInternal
+   inlines as  load v; X) *)
+Definition den1 (x : instr) (v : jv) : result :=
+  match x with
+  | Iconst c => ([c], None)
+  | Iindex k => of_sum (n_index nt v k)
+  | Iiter => iter_res nt v
+  | Ibacktrack => ([], None)
+  | Icall (NF0 f) => of_sum (n_fn0 nt f v)
+  | _ => ([], None)
+  end.
+Definition is_single (x : instr) : bool :=
+  match x with Iconst _ | Iindex _ | Iiter | Ibacktrack | Icall (NF0 _) => true | _ => false end.
+
+Lemma comp_single : forall q ce cur pc nv sn x sn', comp q ce cur pc nv sn = Some ([x], nv, sn') ->
+  is_single x = true /\ forall rho v, den q rho v = den1 x v.
+Proof.
+  qind q; intros ce cur pc nv sn x0 sn' Hc; simpl in Hc; dcomp;
+    try (len_contra' Hc).
+  - (* const *) inversion Hc; subst. split; auto.
+  - (* pipe *) injection Hc as H1 H2 H3. subst.
+    destruct (comp_mono _ _ _ _ _ _ _ _ _ Ec) as [Ma _]. destruct (comp_mono _ _ _ _ _ _ _ _ _ Ec0) as [Mb _].
+    assert (n = nv) by lia. subst n.
+    destruct (app_single _ _ _ H1) as [[-> ->]|[-> ->]].
+    + destruct (comp_nil _ _ _ _ _ _ _ _ Ec) as [E1 _]. destruct (IHb _ _ _ _ _ _ _ Ec0) as [Hs Hd]. split; auto.
+      intros rho v. simpl. rewrite (emptycode_den _ E1), bind_single. auto.
+    + destruct (comp_nil _ _ _ _ _ _ _ _ Ec0) as [E2 _]. destruct (IHa _ _ _ _ _ _ _ Ec) as [Hs Hd]. split; auto.
+      intros rho v. simpl. rewrite Hd. unfold bind.
+      rewrite (bind_list_ext _ (fun w => ([w], None))), bind_list_id; [destruct (den1 x0 v); reflexivity|].
+      intros w. apply (emptycode_den _ E2).
+  - (* empty *) inversion Hc; subst. split; auto.
+  - (* iter *) injection Hc as H1 H2 H3. subst. destruct (app_single _ _ _ H1) as [[-> H]|[_ H]]; [|discriminate].
+    inversion H; subst. destruct (comp_nil _ _ _ _ _ _ _ _ Ec) as [E1 _]. split; auto.
+    intros rho v. simpl. rewrite (emptycode_den _ E1), bind_single. reflexivity.
+  - (* index *) injection Hc as H1 H2 H3. subst. destruct (app_single _ _ _ H1) as [[-> H]|[_ H]]; [|discriminate].
+    inversion H; subst. destruct (comp_nil _ _ _ _ _ _ _ _ Ec) as [E1 _]. split; auto.
+    intros rho v. simpl. rewrite (emptycode_den _ E1), bind_single. reflexivity.
+  - (* if *) destruct (is_const1 l0), (is_const1 l1); destruct l; len_contra' Hc.
+  - (* try *) destruct h; simpl in *; dcomp; len_contra' Hc.
+  - (* array *) destruct (comp_mono _ _ _ _ _ _ _ _ _ Ec) as [M _].
+    destruct (array_fold q) as [cs|]; [|len_contra' Hc]. injection Hc as H1 H2 H3. lia.
+  - (* foreach *) destruct e; simpl in *; dcomp; len_contra' Hc.
+  - (* label *) injection Hc as H1 H2 H3. destruct (comp_mono _ _ _ _ _ _ _ _ _ Ec) as [M _]. lia.
+  - (* bind *) destruct l; len_contra' Hc.
+  - (* call0 *) inversion Hc; subst. split; auto.
   - (* binop *) binop_contra Hc.
 Qed.
 End S.
